@@ -270,20 +270,20 @@ func (e *engine) runSchedules() {
 				emit(Case{Format: f, Opts: e.randOpts(r, f), Input: mutate(r, s.B, hot), Family: "mutated", Name: s.Name})
 			}
 			// documents whose first character is multi-byte (see firstBytes)
-		nFirst := 6
-		if e.thorough {
-			nFirst = 40
-		}
-		for i := 0; i < nFirst*e.scale; i++ {
-			s := pick()
-			for _, fb := range firstBytes {
-				if i >= 2 && r.Chance(60) {
-					continue
-				}
-				emit(Case{Format: f, Opts: e.randOpts(r, f), Input: append([]byte(fb), s.B...), Family: "first-bytes", Name: s.Name})
+			nFirst := 6
+			if e.thorough {
+				nFirst = 40
 			}
-		}
-		// multi-byte and escape heavy documents: the mid-rune schedule needs something to split
+			for i := 0; i < nFirst*e.scale; i++ {
+				s := pick()
+				for _, fb := range firstBytes {
+					if i >= 2 && r.Chance(60) {
+						continue
+					}
+					emit(Case{Format: f, Opts: e.randOpts(r, f), Input: append([]byte(fb), s.B...), Family: "first-bytes", Name: s.Name})
+				}
+			}
+			// multi-byte and escape heavy documents: the mid-rune schedule needs something to split
 			for _, g := range hugeGens[f] {
 				if strings.Contains(g.Name, "escapes") || strings.Contains(g.Name, "uchar") || strings.Contains(g.Name, "entities") || g.Name == "text" || g.Name == "string" || g.Name == "string-value" {
 					in := bytes.ReplaceAll(g.F(600), []byte("aaa"), []byte("é🐛a"))
